@@ -238,11 +238,15 @@ def run_hgm(case):
             w = pats[wname]
             for norm in (True, False):
                 for thr in (0.5, 1.0, 2.0):
-                    for (maxit, minpts) in ((1000, None), (0, 4 * d), (1, 4 * d), (2, 4 * d)):
-                        cc = dict(case, only=[shift, scale, wname, norm, thr, maxit, minpts])
-                        if case.get("only") and case["only"] != [shift, scale, wname, norm, thr, maxit, minpts]:
+                    for (maxit, minpts, spell) in ((1000, None, "py"), (0, 4 * d, "py"), (1, 4 * d, "py"), (2, 4 * d, "py"), (1000, 4 * d, "np.int64"), (2, 3 * d, "np.int32")):
+                        only = [shift, scale, wname, norm, thr, maxit, minpts] + ([spell] if spell != "py" else [])
+                        cc = dict(case, only=only)
+                        if case.get("only") and case["only"] != only:
                             continue
-                        h = HierarchicalGaussianMixture(n_init=1, max_iterations=maxit, min_points=minpts, threshold_modifier=thr, covariance_type="full", normalize=norm)
+                        if spell != "py" and thr != 0.5 and not case.get("only"):
+                            continue  # numpy-integer spellings of the integer options: with the most split-happy threshold only
+                        ity = {"py": int, "np.int64": np.int64, "np.int32": np.int32}[spell]
+                        h = HierarchicalGaussianMixture(n_init=1, max_iterations=ity(maxit), min_points=None if minpts is None else ity(minpts), threshold_modifier=thr, covariance_type="full", normalize=norm)
                         with OwnedRandom(23 + env.SEED):
                             with np.errstate(all="ignore"):
                                 try:
@@ -282,7 +286,60 @@ def run_hgm(case):
     return res
 
 
-KINDS = {"gmm": run_gmm, "hgm": run_hgm}
+def run_refit(case):
+    """ONE clusterer object fitted on a sequence of data sets (other dimension, other size): after every fit the invariants hold for the
+    data just fitted and the result equals that of a fresh object under the same random tape."""
+    from tempest.cluster import HierarchicalGaussianMixture, GaussianMixture
+
+    res = Res()
+    seq = case["seq"]  # list of [d, n, layout, sep]
+    for cls in ("hgm", "gmm"):
+        for opts in ({"min_points": None, "max_iterations": 1000}, {"min_points": None, "max_iterations": 2}) if cls == "hgm" else ({"k": 2}, {"k": 3}):
+            def make():
+                if cls == "hgm":
+                    return HierarchicalGaussianMixture(n_init=1, threshold_modifier=0.5, covariance_type="full", normalize=case["normalize"], **opts)
+                return GaussianMixture(n_components=opts["k"], covariance_type="full", n_init=1)
+            obj = make()
+            hist = []
+            for step, (d, n, layout, sep) in enumerate(seq):
+                X, blob = make_data(d, n, layout, sep)
+                w = weight_patterns(len(X), blob)[case["weights"]]
+                hist.append(f"(d={d}, n={len(X)}, {layout}, sep={sep})")
+                outs = []
+                for o in (obj, make()):
+                    with OwnedRandom(23 + env.SEED):
+                        with np.errstate(all="ignore"):
+                            try:
+                                o.fit(X, w.copy())
+                                outs.append((np.asarray(o.predict(X)).copy(), int(getattr(o, "n_clusters_", 0) or getattr(o, "n_components", 0))))
+                            except Exception as e:
+                                outs.append(e)
+                res.evals += 2
+                res.trans += 1
+                used, fresh = outs
+                tag = f"{cls}{opts} fitted in turn on {' then '.join(hist)}"
+                cc = dict(case, seq=seq[: step + 1])
+                if isinstance(fresh, Exception):
+                    res.bump("fresh_fit_raises")  # owned by the gmm/hgm phases
+                    break
+                if isinstance(used, Exception):
+                    res.violate(f"refit:{cls}:raises:{type(used).__name__}", f"{tag}: the re-used object raised {used!r}, a fresh object fits the last data set", cc)
+                    break
+                (lu, Ku), (lf, Kf) = used, fresh
+                if cls == "hgm":
+                    sizes = np.bincount(lu, minlength=max(Ku, 1))
+                    if Ku >= 2 and sizes.min() < 2 * d:
+                        res.violate("refit:hgm:min-points", f"{tag}: a split left a child with {sizes.min()} < 2*d = {2 * d} points (cluster sizes {sizes.tolist()})", cc)
+                    if Ku > opts["max_iterations"] + 1:
+                        res.violate("refit:hgm:cap", f"{tag}: {Ku} clusters, cap {opts['max_iterations'] + 1}", cc)
+                if Ku != Kf or not np.array_equal(lu, lf):
+                    res.violate(f"refit:{cls}:differs-from-fresh", f"{tag}: the re-used object gives K={Ku}, labels {lu.tolist()[:24]}; a fresh object under the same tape K={Kf}, labels {lf.tolist()[:24]}", cc)
+                res.outcome((cls, str(opts), tuple(map(tuple, seq[: step + 1])), Ku), nontrivial=step > 0)
+    res.states += 1
+    return res
+
+
+KINDS = {"refit": run_refit, "gmm": run_gmm, "hgm": run_hgm}
 
 
 def plan(ctx):
@@ -306,3 +363,9 @@ def plan(ctx):
     ctx.bounds.update({"dims": list(dims), "gmm_data_sets": len(gm), "hgm_data_sets": len(hg), "covariance_types": ["full", "diag"], "components": [1, 2, 3]})
     ctx.explore("gaussian-mixture", gm)
     ctx.explore("hierarchical", hg)
+    # object re-use: every ordered pair (triple in thorough) of a small set of data sets of different dimension / size through one object
+    pool = [[1, 12, "2blob", 10], [2, 12, "2blob", 10], [3, 24, "3blob", 10], [4, 20, "2blob", 3], [2, 40, "1blob", 0]]
+    seqs = [list(p) for r in ((2, 3) if th else (2,)) for p in itertools.permutations(pool, r)]
+    rf = [{"kind": "refit", "seq": sq, "normalize": nm, "weights": wn} for sq in seqs for nm in (True, False) for wn in (("uniform", "geom1e-2") if th else ("uniform",))]
+    ctx.bounds["refit_sequences"] = len(rf)
+    ctx.explore("object-reuse", rf)
